@@ -1160,11 +1160,13 @@ def fixed_scripts():
         _v("x", "2020-01-01", metaEnv={"V": "2"}), _v("x", "2021-01-01", metaEnv={"V": "1"}), _v("x", "2022-01-01"),
         _v("x", None, metaEnv={"V": "3"}), _v("y", "2019-01-01", metaEnv={}), _v("y", "2023-01-01", metaEnv={"V": ""})])]
     X = _cmp("meta.package", "==", "x")
+    Y = _cmp("meta.package", "==", "y")
     sem_exprs = [[_m(X, 2)], [_m(X, 2, "build.date", True)], [_m(X, 3)], [_m(X, 4)], [_m(X, 1, "metaEnv.V")], [_m(X, 2, "metaEnv.V", True)],
                  [_m(X, 1), _m(_cmp("meta.recipe", "==", "r"), 1, "build.date", True)],
                  [_m(_cmp("meta.recipe", "==", "r"), 1), _m(X, 1, "build.date", True)],
-                 [_m(_cmp("build.date", "<=", "2021-01-01"))], [_m(_cmp("build.date", ">", "2021-01-01"))],
-                 [_m(_cmp("build.date", ">=", "2021-01-01"))], [_m(_cmp("build.date", "<", "2021-01-01"))],
+                 [_m({"and": [Y, _cmp("build.date", "<=", "2023-01-01")]})], [_m({"and": [Y, _cmp("build.date", ">", "2019-01-01")]})],
+                 [_m({"and": [Y, _cmp("build.date", ">=", "2023-01-01")]})], [_m({"and": [Y, _cmp("build.date", "<", "2023-01-01")]})],
+                 [_m(_cmp("build.date", "<=", "2021-01-01"))],
                  [_m(_cmp("metaEnv.V", "==", ""))], [_m(_cmp("metaEnv.V", "!=", ""))], [_m(_cmp("metaEnv.nosuch", "==", "meta.nosuch", rref=True))],
                  [_m({"and": [_cmp("meta.package", "==", "zzz"), _cmp("meta.nosuch", "<", "b")]})],
                  [_m({"or": [_cmp("meta.package", "!=", "zzz"), _cmp("meta.nosuch", "<", "b")]})],
@@ -1290,7 +1292,7 @@ def run_sliced(ctx, fn, items, reserve, label, handle):
     """map fn over items in forked workers, in slices sized to take a few seconds each (whatever the machine load is),
     until fewer than `reserve` seconds of the budget are left"""
     import time
-    pos, size = 0, 16
+    pos, size = 0, 8
     while pos < len(items) and ctx.time_left() > reserve * ctx.budget:
         t = time.time()
         for res in ctx.parallel(fn, items[pos:pos + size]):
@@ -1324,9 +1326,9 @@ def oracle(ctx):
     items = []
     for name, s in fixed_scripts():
         items.append(("script", name, os.path.join(ctx.tmp, "fixed-" + name), s))
-    n_hist = ctx.scale(230, 6000)
-    n_odd = ctx.scale(50, 1200)
-    n_block = ctx.scale(30, 600)
+    n_hist = ctx.scale(500, 6000)
+    n_odd = ctx.scale(100, 1200)
+    n_block = ctx.scale(100, 1200)
     hist = [("hist", ctx.subrng("hist", k).getrandbits(64), os.path.join(ctx.tmp, "h%d" % k), None) for k in range(n_hist)]
     odd = [("odd", ctx.subrng("odd", k).getrandbits(64), os.path.join(ctx.tmp, "o%d" % k), None) for k in range(n_odd)]
     block = [("script", "block-%d" % k, os.path.join(ctx.tmp, "b%d" % k),
@@ -1377,7 +1379,7 @@ def oracle(ctx):
                               "unreadable-artifact-deleted")
     run_sliced(ctx, malformed_worker, mitems, T_MALFORMED, "oracle: malformed artifacts", handle_malformed)
     # query() on stub scanners
-    qitems = [(ctx.subrng("query", k).getrandbits(64), 25) for k in range(ctx.scale(192, 4000))]
+    qitems = [(ctx.subrng("query", k).getrandbits(64), 25) for k in range(ctx.scale(400, 4000))]
 
     def handle_query(batch):
         for c in batch:
